@@ -1,7 +1,7 @@
 (* C19 — Ordering, sign, remainder, sums and identities are coherent with the value. *)
 From Coq Require Import Reals ZArith List Bool Lra Lia.
 From RL Require Import Base.Num Base.Str Base.NumR Base.Outcome Model.Dual Model.Number
-  Proofs.NumRP Proofs.DualP Proofs.Dual2P Proofs.LayoutP Proofs.RemEq Proofs.AD1 Proofs.OrdP Proofs.NumberP.
+  Proofs.NumRP Proofs.DualP Proofs.Dual2P Proofs.LayoutP Proofs.RemEq Proofs.AD1 Proofs.OrdP Proofs.SumPerm Proofs.NumberP.
 Import ListNotations.
 Open Scope R_scope.
 
@@ -94,6 +94,11 @@ Theorem C19_sum : forall l : list (dual R), Forall wf l ->
   re (dsum l) = fold_left Rplus (map (@re R) l) 0 /\
   forall v, coef (dsum l) v = fold_left Rplus (map (fun d => coef d v) l) 0.
 Proof. intros l WL. split; [reflexivity|]. apply dsum_spec. exact WL. Qed.
+
+(* ... and it does not depend on the ORDER of the terms (the iterator form sums whatever order the iterator yields) *)
+Theorem C19_sum_order_free : forall l l' : list (dual R), Forall wf l -> Permutation.Permutation l l' ->
+  re (dsum l) = re (dsum l') /\ forall v, coef (dsum l) v = coef (dsum l') v.
+Proof. exact dsum_perm. Qed.
 
 (* zero and one are neutral; is_zero is equality with zero *)
 Theorem C19_identities : forall p (a : dual R), wf a ->
